@@ -272,6 +272,54 @@ fn perm_cases(rep: &mut Report, seed: u64, n: u64) {
     }
 }
 
+/// states that drive one MDS accumulator of the first round to within 2^40 of a multiple of 2^64
+/// (where the split-limb, frequency-domain MDS has to propagate a carry): a single non-zero lane j
+/// holding y with y^alpha = x and m_ij * x = k * 2^64 - t for a small t
+fn mds_carry_cases(rep: &mut Report) {
+    let s64 = spec_rp64();
+    let sj = spec_jive();
+    for (which, sp) in [(0usize, &s64), (1usize, &sj)] {
+        let w = sp.width;
+        let ia = sp.inv_alpha();
+        for j in 0..w {
+            for i in 0..w {
+                let m = sp.mds[i][j];
+                if m < 3 {
+                    continue;
+                }
+                for k in 2..m.min(9) {
+                    for t in [1u128, 2, 1 << 20, 1 << 39, (1 << 40) - 1] {
+                        let x = ((k << 64) - t) / m;
+                        if x >= sp.p {
+                            continue;
+                        }
+                        let y = powm(x, ia, sp.p);
+                        let mut sv = vec![0u128; w];
+                        sv[j] = y;
+                        let mut want = sv.clone();
+                        sp.permute(&mut want);
+                        rep.case(&[b"carry".as_slice(), &[which as u8], &sv.iter().flat_map(|v| v.to_le_bytes()).collect::<Vec<u8>>()].concat(), true);
+                        rep.count("mds_carry_boundary_states");
+                        let got: Result<Vec<u128>, vcommon::PanicInfo> = if which == 0 {
+                            let mut a: [B64; 12] = sv.iter().map(|v| B64::from_int(*v)).collect::<Vec<_>>().try_into().unwrap();
+                            guard(|| { Rp64_256::apply_permutation(&mut a); a.iter().map(|e| e.int()).collect() })
+                        } else {
+                            let mut a: [B64; 8] = sv.iter().map(|v| B64::from_int(*v)).collect::<Vec<_>>().try_into().unwrap();
+                            guard(|| { RpJive64_256::apply_permutation(&mut a); a.iter().map(|e| e.int()).collect() })
+                        };
+                        let name = if which == 0 { "Rp64_256" } else { "RpJive64_256" };
+                        match got {
+                            Ok(g) if g == want => {},
+                            Ok(g) => rep.violation(&format!("permutation-differs-from-reference|{name}"), json!({"family": "mds-carry-boundary", "lane": j, "row": i, "k": k.to_string(), "t": t.to_string(), "state": format!("{sv:?}"), "got": format!("{g:?}"), "reference": format!("{want:?}")})),
+                            Err(p) => rep.violation(&format!("{}|{name}|apply_permutation", p.sig()), json!({"state": format!("{sv:?}")})),
+                        }
+                    }
+                }
+            }
+        }
+    }
+}
+
 fn digest_ints<D: Digest>(d: &D, nbytes: usize) -> Vec<u128> {
     // element digests serialise as 4 canonical little-endian 8-byte integers (Rp62: 31 bytes
     // packed; handled by the caller through as_elements)
@@ -417,7 +465,7 @@ fn sponge_cases(rep: &mut Report, seed: u64, n: u64) {
 
 pub fn run(args: &Args) {
     let mut rep = Report::new("C16", "c16",
-        "permutation on boundary-biased states (all-zero, 32-bit limb patterns, sparse, representation-biased) for Rp64_256, RpJive64_256 and Rp62_248 (through the verif hook) vs a reference round function (x^alpha, x^(alpha^-1 mod p-1) by plain modpow, MDS as matrix product, constants read back from the code and pinned by a golden digest); hash / hash_elements (base, quadratic, cubic) / merge / merge_many / merge_with_int vs the documented sponge, padding, capacity and Jive rules; distinct = distinct states / inputs");
+        "permutation on boundary-biased states (all-zero, 32-bit limb patterns, sparse, representation-biased, and single-lane states crafted so that a first-round MDS accumulator lands within 2^40 below a multiple of 2^64) for Rp64_256, RpJive64_256 and Rp62_248 (through the verif hook) vs a reference round function (x^alpha, x^(alpha^-1 mod p-1) by plain modpow, MDS as matrix product, constants read back from the code and pinned by a golden digest); hash / hash_elements (base, quadratic, cubic) / merge / merge_many / merge_with_int vs the documented sponge, padding, capacity and Jive rules; distinct = distinct states / inputs");
     let seed = args.seed();
     let n = args.budget(1500, 120_000);
     let specs = [spec_rp64(), spec_jive(), spec_rp62()];
@@ -434,6 +482,7 @@ pub fn run(args: &Args) {
         }
     }
     rep.extra.insert("constants_digests".into(), json!(golden));
+    mds_carry_cases(&mut rep);
     perm_cases(&mut rep, seed, n);
     sponge_cases(&mut rep, seed, n / 3);
     rep.finish(&args.out());
